@@ -44,7 +44,9 @@ Derivation of the constants (n <= 8 is generated):
     the harness's 2n x 2n adjoint, the harness's own two or three products with V) have O(1) constants that dominate
     for n <= 3; with "+3" the measured worst error/bound is flat in n (calibration run, 9000 cases, n = 1..8).
   Observed worst error/bound on a tree with a symmetric eigensolver: <= ~1e-2 on every line (evidence/C08.json);
-  the planted mutants and the eig-on-repeated-eigenvalues defect exceed the bounds by >= 1e8.
+  the planted mutants exceed the bounds by >= 1e8 (or trip an exact structure line); np.linalg.eig on the
+  tridiagonal matrix (the unitarity defect found on the tree as delivered) exceeds the V^H V bound by ~1e3..1e4
+  for clustered and by 1e9..1e12 for repeated eigenvalues.
 
 Input classes (tags, computed from the INPUT only: ref.eigvalsh(A) and the zero pattern of A):
   eig_repeated   min gap of the reference spectrum <= 1e-9 * max|lam|      (a multiple eigenvalue; zero matrix included)
@@ -329,7 +331,7 @@ def run_case(A, what):
 # ----------------------------------------------------------------------------
 # generators
 
-SPEC_KINDS = ("simple", "simple", "repeated", "repeated", "allequal", "zeros", "mixed_pm", "clustered",
+SPEC_KINDS = ("simple", "simple", "repeated", "repeated", "allequal", "zeros", "mixed_pm", "clustered", "clustered",
               "projector", "rank1")
 
 
